@@ -124,11 +124,17 @@ func (w *Worker) sync(pc []*Term) {
 func (p *Path) query(extra *Term) (string, Model) {
 	w := p.w
 	w.sync(p.pc)
-	w.solver.Push()
-	if extra != nil {
-		w.solver.Assert(extra)
+	assuming := extra != nil && useAssuming
+	var res string
+	if assuming {
+		res = w.solver.CheckAssuming(extra)
+	} else {
+		w.solver.Push()
+		if extra != nil {
+			w.solver.Assert(extra)
+		}
+		res = w.solver.Check()
 	}
-	res := w.solver.Check()
 	var m Model
 	if res == "sat" {
 		var err error
@@ -138,6 +144,10 @@ func (p *Path) query(extra *Term) (string, Model) {
 			m = nil
 			w.notes["get-model: "+err.Error()]++
 		}
+	}
+	if assuming {
+		w.solver.depth++ // balanced by the Pop below
+		w.solver.send("(push 1)")
 	}
 	if debugModel && m != nil {
 		for i, c := range p.pc {
@@ -529,6 +539,7 @@ func (p *Path) violation(kind, msg string) {
 
 // concretize forks over the values of an integer term (small domains only).
 var debugModel = os.Getenv("GOSYM_DEBUG") != ""
+var useAssuming = os.Getenv("GOSYM_ASSUMING") != ""
 
 func (p *Path) checkModel(where string) {
 	if !debugModel || p.model == nil {
